@@ -110,6 +110,8 @@ type Trans struct {
 	verAlloc  map[string]string // heap array version -> allocation counter when the version was created
 	baseAlloc map[string]string
 	lastAlloc string
+	lastVersion string // heap array version of the last load, and its nesting depth (1 field/cell, 2 element)
+	lastDepth   int
 	sealedCache map[string][]types.Type
 }
 
@@ -260,18 +262,21 @@ func arrOf(s string) string { return "(Array Int " + s + ")" }
 
 func (t *Trans) load(st *State, lv *LVal) string {
 	t.lastAlloc = st.alloc
+	t.lastVersion, t.lastDepth = "", 0
 	switch lv.kind {
 	case lvField, lvCell:
 		ver := t.get(st, lv.arr, arrOf(t.B.sortOf(lv.typ)))
 		if a, ok := t.verAlloc[ver]; ok {
 			t.lastAlloc = a
 		}
+		t.lastVersion, t.lastDepth = ver, 1
 		return fmt.Sprintf("(select %s %s)", ver, lv.obj)
 	case lvElem:
 		ver := t.get(st, lv.arr, arrOf(arrOf(t.B.sortOf(lv.typ))))
 		if a, ok := t.verAlloc[ver]; ok {
 			t.lastAlloc = a
 		}
+		t.lastVersion, t.lastDepth = ver, 2
 		return fmt.Sprintf("(select (select %s %s) %s)", ver, lv.obj, lv.idx)
 	case lvLocal:
 		return t.get(st, lv.arr, t.B.sortOf(lv.typ))
